@@ -559,7 +559,8 @@ macro_rules! impl_nio_read_iovec {
                 $iovcnt: $iovcnt_type,
                 $($arg: $arg_type),*
             ) -> $result {
-                if !$crate::syscall::is_socket($fd) {
+                if !$crate::syscall::is_socket($fd) || $iovcnt < 0 {
+                    // not a socket, or a count only the kernel can answer (EINVAL)
                     return self.inner.$syscall(fn_ptr, $fd, $iov, $iovcnt, $($arg, )*);
                 }
                 let blocking = $crate::syscall::is_blocking($fd);
@@ -774,7 +775,8 @@ macro_rules! impl_nio_write_iovec {
                 $iovcnt: $iovcnt_type,
                 $($arg: $arg_type),*
             ) -> $result {
-                if !$crate::syscall::is_socket($fd) {
+                if !$crate::syscall::is_socket($fd) || $iovcnt < 0 {
+                    // not a socket, or a count only the kernel can answer (EINVAL)
                     return self.inner.$syscall(fn_ptr, $fd, $iov, $iovcnt, $($arg, )*);
                 }
                 let blocking = $crate::syscall::is_blocking($fd);
